@@ -1,5 +1,5 @@
 (* C01 - Recognition is exact.  Statements only; proofs are in the cited files. *)
-From YV Require Import Prelude EarleySpec Recognizer.
+From YV Require Import Prelude EarleySpec Recognizer Viable Lookahead.
 
 (* The declarative item system is exactly "valid item of the consumed prefix". *)
 Theorem C01_items_characterised : forall g axiom p i, Item g axiom p i <-> valid g axiom p i.
@@ -11,3 +11,13 @@ Theorem C01_decider_exact : forall g axiom w b,
   recognize g axiom w = Some b -> (b = true <-> sentence g axiom w).
 Proof. exact recognize_correct. Qed.
 Print Assumptions C01_decider_exact.
+
+(* "the verdict is the same for every lookahead level": sets pruned by a
+   lookahead filter that keeps the items on a derivation of the input accept
+   exactly the sentences (Lookahead.v; the level-1 filter is shown to be such a
+   filter in C09_static_filter_keeps_useful_items). *)
+Theorem C01_verdict_under_lookahead : forall g axiom (keep : option nat -> item -> Prop),
+  (forall w p i, useful g axiom w p i -> keep (next w p) i) ->
+  forall w, (exists i, ItemF g axiom keep w w i /\ final axiom i) <-> sentence g axiom w.
+Proof. exact acceptF. Qed.
+Print Assumptions C01_verdict_under_lookahead.
